@@ -76,6 +76,9 @@ fn check_cell(c: &Cell, st: &mut Stats) -> Result<(), String> {
                 return Err(format!("{}: non-numeric Content-Length accepted by the flow", what()));
             }
             match f.proceed() {
+                // an interim 100 that nobody asked for is handed to the caller and the flow keeps waiting for the real response:
+                // whether such a head is an error, is skipped or is handed out is not stated anywhere (don't-care cell)
+                None if c.status == 100 => st.class("status_100_handed_out_flow_keeps_waiting"),
                 None => return Err(format!("{}: flow cannot proceed after the head", what())),
                 Some(RecvResponseResult::RecvBody(b)) => {
                     let got = mode_to_framing(b.body_mode());
